@@ -42,7 +42,14 @@ def _root(q):
 
 def _preserved(eng, q, r, x, label):
     eng.prove(q.dimensionality == r.dimensionality, label + ":dimensionality")
-    eng.prove(Eq(_root(q), _root(r)), label + ":value")
+    a, b = _root(q), _root(r)
+    frac_exp = any(Fraction(str(e.c if hasattr(e, "c") else e)).denominator != 1 for e in list(r._units.values()) + list(q._units.values()))
+    if frac_exp or isinstance(a, float) or isinstance(b, float):
+        # a merge with a fractional dimension ratio (e.g. angstrom * gallon -> gallon ** (4/3))
+        # goes through a float power: the value is kept up to that rounding only
+        eng.prove(abs(a - b) <= abs(a) * Fraction(1, 10**9), label + ":value")
+    else:
+        eng.prove(Eq(a, b), label + ":value")
     eng.prove(Eq(q.magnitude, x), label + ":input-untouched")
 
 
@@ -190,7 +197,11 @@ def h_auto(eng, u, v, option):
     pa, pb = plain.Quantity(x, u), plain.Quantity(y, v)
     for name, r, pr in (("mul", a * b, pa * pb), ("div", a / b, pa / pb)):
         eng.prove(dict(r.dimensionality) == dict(pr.dimensionality), f"{option}:{name}:dimensionality")
-        eng.prove(Eq(_root(r), _root(pr)), f"{option}:{name}:value")
+        va, vb = _root(pr), _root(r)
+        if any(Fraction(str(e.c if hasattr(e, "c") else e)).denominator != 1 for e in r._units.values()) or isinstance(va, float) or isinstance(vb, float):
+            eng.prove(abs(va - vb) <= abs(va) * Fraction(1, 10**9), f"{option}:{name}:value")
+        else:
+            eng.prove(Eq(va, vb), f"{option}:{name}:value")
     eng.prove(And(Eq(a.magnitude, x), Eq(b.magnitude, y)), f"{option}:operands-untouched")
 
 
